@@ -434,15 +434,15 @@ PROPS = {
             "render_link_project itself); render_link_anchor attaches exactly ONE reference node, marked id_link, at the "
             "link's own line below the current node (no link is dropped or duplicated at this stage), renders the link text "
             "inside it unless the link is an autolink, records the destination with the percent-encoding undone, and puts the "
-            "current node back; render_myst_target (a `(name)=` block target) attaches exactly one target node at its own "
-            "line, named by the normalised text and registered under that name.  ResolveAnchorIds.apply: the resolution LOOP is under a suffix contract "
+            "current node back; render_myst_target (a `(name)=` block target) attaches its target node (last; a duplicate name makes docutils put a message in front of it) at its own "
+            "line, and the normalised text is a registered name afterwards (the node keeps it in `names`, or in `dupnames` after a clash).  ResolveAnchorIds.apply: the resolution LOOP is under a suffix contract "
             "(contracts/anchors.py; the two tables the first half of the function builds - explicit names and heading slugs - are ghost parameters, so the rule "
-            "is proved for any tables): every iteration establishes, for the reference it processes, explicit target (verbatim name, else docutils' normalised "
+            "is proved for any tables): the loop invariant says, for EVERY reference processed so far (and first, more cheaply, for the one just processed): explicit target (verbatim name, else docutils' normalised "
             "spelling) before heading slug before - docutils front end - exactly ONE 'target not found' warning about that reference at its own line with "
             "the normalised link text as refid; the '#' marker is consumed, given link text is kept in front, a reference that is not a '#'-link is not touched, "
             "and references not reached yet are left alone (the references are the pairwise distinct nodes findall yields: assumed).  NOT under contract: "
             "the first half of ResolveAnchorIds.apply (building the tables from docutils' name / id registries, isinstance over node class unions), the Sphinx "
-            "branch (pending_xref), that later iterations leave earlier references alone, and the target-registering renderers.  "
+            "branch (pending_xref), and the target-registering renderers.  "
             "BOUNDED: documents "
             "over 8 kinds of target providers ('(name)=' before a heading / paragraph / captioned figure, attribute ids - also "
             "written with upper case -, a directive :name:, a heading slug) with empty-text and explicit-text links, "
